@@ -14,7 +14,7 @@ def sameVals (m : Model) (k : Kind) (a b : Vals) : Bool :=
 
 def recOKb (m : Model) (e : Enc) (k : Kind) (v : Vals) : Bool :=
   let line := bodyLn m e k v
-  kindOfLine line == some k && decide (minLen line ≤ line.length) &&
+  kindOfLine line == some k && decide (minLen m e line ≤ line.length) &&
   (match recParse m e k line (tmpl m k) with
    | .ok v' => sameVals m k v' v
    | .error _ => false)
@@ -58,7 +58,7 @@ def fileOKb (m : Model) (e : Enc) (f : File Vals) : Bool :=
 def recWhy (m : Model) (e : Enc) (k : Kind) (v : Vals) : String :=
   let line := bodyLn m e k v
   if !(kindOfLine line == some k) then "kind"
-  else if !(decide (minLen line ≤ line.length)) then s!"length {line.length}"
+  else if !(decide (minLen m e line ≤ line.length)) then s!"length {line.length}"
   else match recParse m e k line (tmpl m k) with
     | .ok v' => "differs: " ++ dumpVals (fieldKinds (m.layout k)) v' ++ " VS " ++ dumpVals (fieldKinds (m.layout k)) v
     | .error x => "parse/validate error " ++ x
